@@ -65,5 +65,11 @@ TEXTS = {
         "level_note": "Trusts the denotational evaluator for the value check and the embedded query as the oracle for the RPC one.",
         "technique": "property-based testing (rapid), round-trip + behavioural equality, differential RPC vs embedded",
     },
+    "C16": {
+        "level_text": "Exploration / fuzzing: tens of thousands of grammar-aware mutated statements per quick run (hundreds of thousands plus a coverage-guided native fuzzing campaign in the thorough tier) against parse+plan on a standalone database and a cluster leader, and hundreds of hostile payload histories against a standalone database and an in-process cluster with a liveness-and-content oracle. A robustness claim over all inputs can only be sampled; found panics are fixed or listed and excluded so the search continues.",
+        "design_ref": "DESIGN.md section 4 C16",
+        "level_note": "Trusts recover() in the harness to observe panics, the ingestion barriers for the stall verdict (twice, fresh databases), and the reference of what a valid point must produce. The unterminated-back-quote hang of the dependency parser is probed in a memory-capped child process.",
+        "technique": "grammar-aware mutation PBT (rapid) + native coverage-guided fuzzing; crash/stall oracle + content oracle",
+    },
 }
 NOT_APPLICABLE = []
